@@ -26,4 +26,7 @@ VARIANTS = [
     V('benign-midpoint-half', G, ("mr.MatrixLog3(Re)/2", "mr.MatrixLog3(Re)/2.0"), 'silent'),
     V('sphere-ring-radius-unclamped', G, [("arccos_e = np.arccos(np.clip(e, -1.0, 1.0))\n        sin_arccos_e = np.sin(arccos_e)", "ring_radius = np.sqrt(1.0 - e * e)"), ("x = np.cos(a) * sin_arccos_e\n            y = np.sin(a) * sin_arccos_e\n            z = np.cos(arccos_e)", "x = np.cos(a) * ring_radius\n            y = np.sin(a) * ring_radius\n            z = e")], 'fire', 'R18.8'),
     V('benign-sphere-ring-radius-clamped', G, [("arccos_e = np.arccos(np.clip(e, -1.0, 1.0))\n        sin_arccos_e = np.sin(arccos_e)", "ring_radius = np.sqrt(max(0.0, 1.0 - e * e))"), ("x = np.cos(a) * sin_arccos_e\n            y = np.sin(a) * sin_arccos_e\n            z = np.cos(arccos_e)", "x = np.cos(a) * ring_radius\n            y = np.sin(a) * ring_radius\n            z = np.clip(e, -1.0, 1.0)")], 'silent'),
+    V('benign-ikpath-comprehension', G, ('pose_list = []\n    for i in range(steps - 1):\n        pos = tm(initial.gTAA() + delta * i)\n        pose_list.append(pos)\n    pose_list.append(goal)', 'start = initial.gTAA()\n    pose_list = [tm(start + delta * i) for i in range(steps - 1)]\n    pose_list.append(goal)'), 'silent'),
+    V('ikpath-comprehension-one-too-many', G, ('pose_list = []\n    for i in range(steps - 1):\n        pos = tm(initial.gTAA() + delta * i)\n        pose_list.append(pos)\n    pose_list.append(goal)', 'start = initial.gTAA()\n    pose_list = [tm(start + delta * i) for i in range(steps)]\n    pose_list.append(goal)'), 'fire', 'IKPath'),
+    V('ikpath-comprehension-skips-start', G, ('pose_list = []\n    for i in range(steps - 1):\n        pos = tm(initial.gTAA() + delta * i)\n        pose_list.append(pos)\n    pose_list.append(goal)', 'start = initial.gTAA()\n    pose_list = [tm(start + delta * (i + 1)) for i in range(steps - 1)]\n    pose_list.append(goal)'), 'fire', 'IKPath'),
 ]
